@@ -411,29 +411,39 @@ theorem connStep_emit (cfg : Cfg) (fresh : List Char) (x : Conn) (ev : Ev) (st :
 
 /-! ### from connection outputs to server outputs -/
 
+theorem writeTo_mem (s : Server) (src : Nat) (found : List Nat) (mk : Nat → Out) (o : Out)
+    (h : o ∈ writeTo s src found mk) : o = .ub src ∨ ∃ d, o = mk d := by
+  unfold writeTo at h
+  simp only [List.mem_append, List.mem_map] at h
+  rcases h with h | ⟨d, _, rfl⟩
+  · split at h
+    · simp at h; exact Or.inl h
+    · simp at h
+  · exact Or.inr ⟨d, rfl⟩
+
 theorem handleStanza_mem (cfg : Cfg) (s : Server) (src : Nat) (st : Stanza) (o : Out)
     (h : o ∈ handleStanza cfg s src st) :
-    (∃ d, o = .deliver src d st) ∨ (∃ d f cond, o = .reply src d (.iqError st.id f st.sender cond)) := by
+    (∃ d, o = .deliver src d st) ∨ (∃ d f cond, o = .reply src d (.iqError st.id f st.sender cond)) ∨ o = .ub src := by
   unfold handleStanza at h
   split at h
   · split at h
     · split at h
       · split at h
-        · simp only [List.mem_map] at h
-          obtain ⟨d, _, rfl⟩ := h
-          exact Or.inr ⟨d, _, _, rfl⟩
+        · rcases writeTo_mem _ _ _ _ _ h with rfl | ⟨d, rfl⟩
+          · exact Or.inr (Or.inr rfl)
+          · exact Or.inr (Or.inl ⟨d, _, _, rfl⟩)
         · simp at h
       · simp at h
     · simp at h
   · split at h
-    · simp only [List.mem_map] at h
-      obtain ⟨d, _, rfl⟩ := h
-      exact Or.inl ⟨d, rfl⟩
+    · rcases writeTo_mem _ _ _ _ _ h with rfl | ⟨d, rfl⟩
+      · exact Or.inr (Or.inr rfl)
+      · exact Or.inl ⟨d, rfl⟩
     · split at h
       · split at h
-        · simp only [List.mem_map] at h
-          obtain ⟨d, _, rfl⟩ := h
-          exact Or.inr ⟨d, _, _, rfl⟩
+        · rcases writeTo_mem _ _ _ _ _ h with rfl | ⟨d, rfl⟩
+          · exact Or.inr (Or.inr rfl)
+          · exact Or.inr (Or.inl ⟨d, _, _, rfl⟩)
         · simp at h
       · simp at h
 
@@ -446,7 +456,7 @@ theorem unregister_mem (s : Server) (c : Nat) (o : Out) (h : o ∈ (unregister s
   · simp at h; exact h
 
 theorem register_mem (s : Server) (c : Nat) (o : Out) (h : o ∈ (register s c).2) :
-    o = .connected c (s.conns c).jid ∨ (∃ k, k ≠ c ∧ (o = .send k (.streamError .conflict) ∨ o = .send k .streamEnd ∨ o = .closed k ∨ ∃ j, o = .disconnected k j)) := by
+    o = .connected c (s.conns c).jid ∨ o = .ub c ∨ (∃ k, k ≠ c ∧ (o = .send k (.streamError .conflict) ∨ o = .send k .streamEnd ∨ o = .closed k ∨ ∃ j, o = .disconnected k j)) := by
   unfold register at h
   simp only [List.mem_append, List.mem_cons, List.not_mem_nil, or_false] at h
   rcases h with h | h
@@ -456,14 +466,16 @@ theorem register_mem (s : Server) (c : Nat) (o : Out) (h : o ∈ (register s c).
       split at h
       · rename_i hk
         simp only [List.mem_append, List.mem_cons, List.not_mem_nil, or_false] at h
-        refine ⟨o', hk.1, ?_⟩
+        refine Or.inr ⟨o', hk.1, ?_⟩
         rcases h with (h | h) | h
         · exact Or.inl h
         · exact Or.inr (Or.inl h)
         · rcases unregister_mem _ _ _ h with h | h
           · exact Or.inr (Or.inr (Or.inl h))
           · exact Or.inr (Or.inr (Or.inr ⟨_, h⟩))
-      · simp at h
+      · split at h
+        · simp at h; exact Or.inl h
+        · simp at h
     · simp at h
   · exact Or.inl h
 
@@ -478,12 +490,13 @@ theorem applyOut_needsAuth (cfg : Cfg) (s : Server) (c0 : Nat) (co : COut) (o : 
     simp only [applyOut, List.mem_cons] at h
     rcases h with rfl | h
     · exact ⟨hn.symm, trivial⟩
-    · rcases handleStanza_mem _ _ _ _ _ h with ⟨d, rfl⟩ | ⟨d, f, cond, rfl⟩
+    · rcases handleStanza_mem _ _ _ _ _ h with ⟨d, rfl⟩ | ⟨d, f, cond, rfl⟩ | rfl
       · exact ⟨hn.symm, trivial⟩
       · exact ⟨hn.symm, trivial⟩
+      · simp [NeedsAuth] at hn
   | bound =>
     simp only [applyOut] at h
-    rcases register_mem _ _ _ h with rfl | ⟨k, _, rfl | rfl | rfl | ⟨j, rfl⟩⟩
+    rcases register_mem _ _ _ h with rfl | rfl | ⟨k, _, rfl | rfl | rfl | ⟨j, rfl⟩⟩
     · exact ⟨hn.symm, trivial⟩
     all_goals simp [NeedsAuth] at hn
   | closed =>
@@ -552,7 +565,7 @@ theorem register_conns (s : Server) (c i : Nat) :
         exact ⟨Or.inr rfl, fun h => absurd h hk.1⟩
       · simp only [hi, if_false]
         exact ⟨Or.inl rfl, fun _ => trivial⟩
-    · exact ⟨Or.inl rfl, fun _ => rfl⟩
+    · split <;> exact ⟨Or.inl rfl, fun _ => rfl⟩
   · exact ⟨Or.inl rfl, fun _ => rfl⟩
 
 theorem applyOut_conns (cfg : Cfg) (s : Server) (c0 : Nat) (co : COut) (i : Nat) :
@@ -1237,7 +1250,7 @@ theorem applyOut_stanza_origin (cfg : Cfg) (s : Server) (c0 : Nat) (co : COut) (
       · intro c st' h; injection h with h1 h2; exact ⟨h1.symm, by rw [h2]⟩
       · intro _ _ _ h; cases h
       · intro _ _ _ h; cases h
-    · rcases handleStanza_mem _ _ _ _ _ h with ⟨d, rfl⟩ | ⟨d, f, cond, rfl⟩
+    · rcases handleStanza_mem _ _ _ _ _ h with ⟨d, rfl⟩ | ⟨d, f, cond, rfl⟩ | rfl
       · refine ⟨?_, ?_, ?_⟩
         · intro _ _ h; cases h
         · intro a b st' h; injection h with h1 h2 h3; exact ⟨h1.symm, by rw [h3]⟩
@@ -1246,9 +1259,13 @@ theorem applyOut_stanza_origin (cfg : Cfg) (s : Server) (c0 : Nat) (co : COut) (
         · intro _ _ h; cases h
         · intro _ _ _ h; cases h
         · intro a b e h; injection h with h1 h2 h3; exact ⟨h1.symm, st, f, cond, rfl, h3.symm⟩
+      · refine ⟨?_, ?_, ?_⟩
+        · intro _ _ h; cases h
+        · intro _ _ _ h; cases h
+        · intro _ _ _ h; cases h
   | bound =>
     simp only [applyOut] at h
-    rcases register_mem _ _ _ h with h | ⟨k, _, h | h | h | ⟨j, h⟩⟩ <;>
+    rcases register_mem _ _ _ h with h | h | ⟨k, _, h | h | h | ⟨j, h⟩⟩ <;>
       exact none_of _ (by intros; simp) (by intros; simp) (by intros; simp) h
   | closed =>
     simp only [applyOut] at h
